@@ -242,6 +242,38 @@ fn op_avps_concat(c: &Value, ev: &mut Map<String, Value>) -> Result<(), String> 
     Ok(())
 }
 
+/// C15: a control message assembled from records; every record also decoded alone
+fn op_ctl_records(c: &Value, ev: &mut Map<String, Value>) -> Result<(), String> {
+    let input = json_bytes(&c["in"])?;
+    let recs: Vec<Vec<u8>> = c["recs"].as_array().ok_or("recs")?.iter().map(json_bytes).collect::<Result<_, _>>()?;
+    let run = |data: &[u8]| -> Value {
+        match guarded(|| {
+            let mut r = SliceReader::from(data);
+            avps_with(&mut r)
+        }) {
+            Ok((o, rem)) => json!({"out": o, "rem": rem}),
+            Err(p) => json!({"out": p, "rem": 0}),
+        }
+    };
+    ev.insert("parts".into(), Value::Array(recs.iter().map(|r| run(r)).collect()));
+    let cc = json!({"opts": [true, true, true], "entry": "validate"});
+    let o = guarded(|| {
+        let mut r = SliceReader::from(&input[..]);
+        decode_with(&mut r, &cc)
+    });
+    match o {
+        Ok((o, rem)) => {
+            ev.insert("out".into(), o);
+            ev.insert("rem".into(), rem);
+        }
+        Err(p) => {
+            ev.insert("out".into(), p);
+            ev.insert("rem".into(), json!(0));
+        }
+    }
+    Ok(())
+}
+
 enum Val {
     Msg(Message<Vec<u8>>),
     Avp(AVP),
@@ -272,6 +304,18 @@ fn op_encode(c: &Value, ev: &mut Map<String, Value>) -> Result<(), String> {
             Ok(n) => ev.insert("glen".into(), json!(n)),
             Err(p) => ev.insert("glen".into(), p),
         };
+    }
+    if !prefix.is_empty() {
+        // the implementation's own encoding of the same value into an empty writer (C09 compares with it)
+        let mut w0 = VecWriter::new();
+        let o = guarded(|| write_val(&val, &mut w0));
+        ev.insert(
+            "solo".into(),
+            match o {
+                Ok(()) => json!({"t": "ok", "v": bytes_json(&w0.data)}),
+                Err(p) => p,
+            },
+        );
     }
     match wr {
         "vec" => {
@@ -308,6 +352,16 @@ fn op_encode_seq(c: &Value, ev: &mut Map<String, Value>) -> Result<(), String> {
     let items = c["items"].as_array().ok_or("items")?;
     let mut w = VecWriter::new();
     let mut outs = Vec::new();
+    let mut solos = Vec::new();
+    for it in items {
+        let val = val_from(it["kind"].as_str().unwrap_or("msg"), &it["v"])?;
+        let mut w0 = VecWriter::new();
+        solos.push(match guarded(|| write_val(&val, &mut w0)) {
+            Ok(()) => json!({"t": "ok", "v": bytes_json(&w0.data)}),
+            Err(p) => p,
+        });
+    }
+    ev.insert("solos".into(), Value::Array(solos));
     for it in items {
         let val = val_from(it["kind"].as_str().unwrap_or("msg"), &it["v"])?;
         let o = guarded(|| write_val(&val, &mut w));
@@ -413,48 +467,54 @@ fn to_owned_msg(m: &Message<&[u8]>) -> Message<Vec<u8>> {
     }
 }
 
-/// decode -> encode -> strict decode -> encode (C10)
+/// decode -> encode -> strict decode -> encode (C10); each stage guarded on its own
 fn op_chain(c: &Value, ev: &mut Map<String, Value>) -> Result<(), String> {
     let input = json_bytes(&c["in"])?;
-    let o = guarded(|| {
-        let mut out: Vec<(&str, Value)> = Vec::new();
+    let m1 = match guarded(|| {
         let mut r = SliceReader::from(&input[..]);
-        let m1 = Message::<&[u8]>::try_read_validate(&mut r, opts_from(&c["opts"]));
-        out.push(("m1", msg_result_to_json(&m1)));
-        let Ok(m1) = m1 else { return out };
-        let m1 = to_owned_msg(&m1);
-        let mut w1 = VecWriter::new();
-        m1.write(&mut w1);
-        out.push(("b1", bytes_json(&w1.data)));
-        let mut r2 = SliceReader::from(&w1.data[..]);
-        let m2 = Message::<&[u8]>::try_read_validate(&mut r2, strict());
-        out.push(("m2", msg_result_to_json(&m2)));
-        let Ok(m2) = m2 else { return out };
-        let m2 = to_owned_msg(&m2);
-        let eq = match (&m1, &m2) {
-            (Message::Control(a), Message::Control(b)) => {
-                let mut a2 = a.clone();
-                a2.length = b.length;
-                a2 == *b
-            }
-            (a, b) => a == b,
-        };
-        out.push(("eq", json!(eq)));
-        let mut w2 = VecWriter::new();
-        m2.write(&mut w2);
-        out.push(("b2", bytes_json(&w2.data)));
-        out
-    });
-    match o {
-        Ok(fields) => {
-            for (k, v) in fields {
-                ev.insert(k.into(), v);
-            }
-        }
+        Message::<&[u8]>::try_read_validate(&mut r, opts_from(&c["opts"])).map(|m| to_owned_msg(&m))
+    }) {
+        Ok(m) => m,
         Err(p) => {
             ev.insert("m1".into(), p);
+            return Ok(());
         }
+    };
+    ev.insert("m1".into(), msg_result_to_json(&m1));
+    let Ok(m1) = m1 else { return Ok(()) };
+    let mut w1 = VecWriter::new();
+    if guarded(|| m1.write(&mut w1)).is_err() {
+        ev.insert("stage_panic".into(), json!("b1"));
+        return Ok(());
     }
+    ev.insert("b1".into(), bytes_json(&w1.data));
+    let m2 = match guarded(|| {
+        let mut r2 = SliceReader::from(&w1.data[..]);
+        Message::<&[u8]>::try_read_validate(&mut r2, strict()).map(|m| to_owned_msg(&m))
+    }) {
+        Ok(m) => m,
+        Err(_) => {
+            ev.insert("stage_panic".into(), json!("m2"));
+            return Ok(());
+        }
+    };
+    ev.insert("m2".into(), msg_result_to_json(&m2));
+    let Ok(m2) = m2 else { return Ok(()) };
+    let eq = match (&m1, &m2) {
+        (Message::Control(a), Message::Control(b)) => {
+            let mut a2 = a.clone();
+            a2.length = b.length;
+            a2 == *b
+        }
+        (a, b) => a == b,
+    };
+    ev.insert("eq".into(), json!(eq));
+    let mut w2 = VecWriter::new();
+    if guarded(|| m2.write(&mut w2)).is_err() {
+        ev.insert("stage_panic".into(), json!("b2"));
+        return Ok(());
+    }
+    ev.insert("b2".into(), bytes_json(&w2.data));
     Ok(())
 }
 
@@ -940,6 +1000,7 @@ pub fn run_op(c: &Value, ev: &mut Map<String, Value>) -> Result<(), String> {
         "decode_opts" => op_decode_opts(c, ev),
         "decode_suffix" => op_decode_suffix(c, ev),
         "avps_concat" => op_avps_concat(c, ev),
+        "ctl_records" => op_ctl_records(c, ev),
         "encode" => op_encode(c, ev),
         "encode_seq" => op_encode_seq(c, ev),
         "roundtrip" => op_roundtrip(c, ev),
